@@ -13,7 +13,10 @@ from sigma.exceptions import (
     SigmaTransformationError,
 )
 from sigma.types import (
+    SigmaBool,
     SigmaExpansion,
+    SigmaNull,
+    SigmaNumber,
     SigmaString,
     SigmaType,
     SigmaFieldReference,
@@ -334,6 +337,9 @@ class FieldMappingTransformationBase(DetectionItemTransformation):
                     replacement.applied_processing_items = set(
                         detection_item.applied_processing_items
                     )
+                    # ...and its values as written: the modifiers were applied to those, not to the
+                    # values the copy was initialized with
+                    replacement.original_value = detection_item.original_value
                 result = SigmaDetection(replacements, item_linking=ConditionOR)
         if field_match or fieldref_match:  # field name was changed or field reference was mapped
             if self._pipeline is not None and mapping is not None:
@@ -407,9 +413,14 @@ class ValueTransformation(DetectionItemTransformation):
                         # Unlike FieldMappingTransformation (which may add wildcards to values
                         # making round-tripping incorrect), ValueTransformation operates on the
                         # values directly and the new values serve as the serializable original.
-                        if r.modifiers:
+                        if r.modifiers or not all(
+                            type(value) in (SigmaString, SigmaNumber, SigmaBool, SigmaNull)
+                            for value in r.value
+                        ):
                             # ...but only without modifiers: they were applied before the values
-                            # were transformed and would be applied again to the new values.
+                            # were transformed and would be applied again to the new values. And only
+                            # for values of types that need no modifier to be read back as what they
+                            # are (a regular expression would be written as a plain string).
                             r.disable_conversion_to_plain()
                         else:
                             r.original_value = r.value.copy()
